@@ -5,16 +5,20 @@
 d=$(readlink -f "$1")
 export GOFLAGS=-mod=mod GOPROXY=off GOSUMDB=off GOTOOLCHAIN=local
 wt=$(mktemp -d /tmp/vseed-XXXX)
+log=$(mktemp /tmp/vseedlog-XXXX)
+rc=0
 git -C /repo worktree add --detach -q "$wt" HEAD || exit 2
-cleanup() { git -C /repo worktree remove --force "$wt" 2>/dev/null; rm -rf "$wt"; }
+cleanup() { git -C /repo worktree remove --force "$wt" 2>/dev/null; rm -rf "$wt" "$log" "$log".*; }
 trap cleanup EXIT
 cd "$wt"
 mkdir -p "$wt/out/x" && cp -r "$d"/. "$wt/out/x/"
 demo="$wt/out/x/demo.sh"
 echo "--- demo on unchanged HEAD"
-if [ -f "$demo" ]; then ( bash "$demo" >/tmp/vseed.out 2>&1 ); echo "demo(HEAD) exit=$?"; else echo "no demo.sh"; fi
+if [ -f "$demo" ]; then ( bash "$demo" >$log.out 2>&1 ); h=$?; echo "demo(HEAD) exit=$h"; [ $h -eq 0 ] || { echo "NOT CONFIRMED: the demo fails on the unchanged tree"; rc=5; }; else echo "no demo.sh"; rc=6; fi
 git apply --exclude="out/*" "$d/patch.diff" || { echo "PATCH DOES NOT APPLY"; exit 3; }
 go1.26.8 build ./... || { echo "BUILD FAILS"; exit 4; }
-if go1.26.8 test -vet=off -count=1 ./... >/tmp/vseed.test 2>&1; then echo "tests pass with patch"; else echo "TESTS FAIL with patch"; grep -v "^ok\|no test files" /tmp/vseed.test | head; fi
+if go1.26.8 test -vet=off -count=1 ./... >$log.test 2>&1; then echo "tests pass with patch"; else echo "TESTS FAIL with patch"; grep -v "^ok\|no test files" $log.test | head; rc=7; fi
 echo "--- demo with patch"
-if [ -f "$demo" ]; then ( bash "$demo" >/tmp/vseed.out2 2>&1 ); echo "demo(patched) exit=$?"; tail -3 /tmp/vseed.out2 | cut -c1-200; fi
+if [ -f "$demo" ]; then ( bash "$demo" >$log.out2 2>&1 ); q=$?; echo "demo(patched) exit=$q"; tail -3 $log.out2 | cut -c1-200; [ $q -ne 0 ] || { echo "NOT CONFIRMED: the demo passes with the patch"; rc=8; }; fi
+[ $rc -eq 0 ] && echo "CONFIRMED"
+exit $rc
